@@ -1,5 +1,6 @@
 import DaskModel.Lemmas.Match
 import DaskModel.Lemmas.MatchComplete
+import DaskModel.Lemmas.MatchNodup
 /-!
 # C51 — term-rewrite matching is sound and complete
 
@@ -137,6 +138,21 @@ theorem rewrite_applies_iff (rules : List Rule) (term : Term) :
     obtain ⟨i, σ⟩ := m
     obtain ⟨r, hr, hinst⟩ := match_sound rules term _ i σ hms (List.mem_cons_self)
     exact ⟨i, σ, rest, r, rfl, hr, hinst, by simp [rewriteTop, hms, hr]⟩
+
+/-- **match_yields_once.** No rule is yielded twice: the rule indices of the yielded matches are pairwise distinct.
+Together with `match_sound` and `match_complete`: `iter_matches` yields *exactly* the (well-formed) rules whose
+left-hand side has an instance equal to the term, each once. -/
+theorem match_yields_once (rules : List Rule) (term : Term) (ms : List (Nat × Subst))
+    (h : iterMatches rules term = some ms) : (ms.map (·.1)).Nodup := by
+  unfold iterMatches at h
+  simp only [matchLoop_walk, Option.map_some, Option.some.injEq] at h
+  subst h
+  rw [List.nodup_iff_count]
+  intro i
+  have h1 := count_candidates_le rules term (walk (Net.ofRules rules) [term] []) i
+  have h2 := count_walk_le (Net.ofRules rules) [term] [] i
+  have h3 := List.nodup_iff_count.mp (idxOf_ofRules_nodup rules) i
+  omega
 
 /-! ### the code before the fixes (DESIGN.md §6 #12) -/
 
